@@ -17,6 +17,7 @@ pub struct Report {
     pub skipped_host: u64,
     pub skipped_unsupported: u64,
     pub pre_failed: u64,
+    pub drift_rows: u64,
     pub no_state_row: u64,
     pub states: u64,
     pub per_action: HashMap<String, u64>,
@@ -94,7 +95,7 @@ pub fn observe<P: PT, C: Coll<P>>(c: &C, ctx: &Ctx, o: Outcome) -> Step {
 }
 
 /// Compare one executed step with the row; push one mismatch record per differing facet.
-pub fn compare(row: &Value, ctx: &Ctx, st: &Step, is_set: bool) -> Vec<(String, Value, Value)> {
+pub fn compare(row: &Value, ctx: &Ctx, st: &Step, is_set: bool, dr: i64) -> Vec<(String, Value, Value)> {
     let mut mm = vec![];
     let exp_ret = ctx.norm(&row["r"]);
     let exp_pan = row["pn"].as_bool().unwrap_or(false);
@@ -131,10 +132,12 @@ pub fn compare(row: &Value, ctx: &Ctx, st: &Step, is_set: bool) -> Vec<(String, 
         mm.push(("count".into(), x[2].clone(), st.acct[2].clone()));
     }
     // observation-relative facets, independent of the table
-    if st.len != st.iter_count || st.is_empty != (st.iter_count == 0) {
+    // `dr` is the drift the specification attributes to the listed finding F4 (0 otherwise)
+    let exp_len = st.iter_count as i64 + dr;
+    if st.len as i64 != exp_len || st.is_empty != (exp_len == 0) {
         mm.push((
             "len_vs_iter".into(),
-            json!([st.iter_count, st.iter_count == 0]),
+            json!([exp_len, exp_len == 0]),
             json!([st.len, st.is_empty]),
         ));
     }
@@ -173,7 +176,7 @@ pub fn replay_rows<P: PT, C: Coll<P>>(
 ) {
     let mut cache: HashMap<String, Option<C>> = HashMap::new();
     // state rows: path -> (tree, accounting) the path must produce
-    let mut pre: HashMap<String, (Value, Value)> = HashMap::new();
+    let mut pre: HashMap<String, (Value, Value, i64)> = HashMap::new();
     let mut line = String::new();
     loop {
         line.clear();
@@ -182,7 +185,10 @@ pub fn replay_rows<P: PT, C: Coll<P>>(
         }
         let Some(mut row) = parse_row(&line) else { continue };
         if let Some(s) = row.get("s") {
-            pre.insert(serde_json::to_string(s).unwrap(), (row["f"].clone(), row["fx"].clone()));
+            pre.insert(
+                serde_json::to_string(s).unwrap(),
+                (row["f"].clone(), row["fx"].clone(), row["dr"].as_i64().unwrap_or(0)),
+            );
             continue;
         }
         if row.get("e").is_none() {
@@ -190,7 +196,7 @@ pub fn replay_rows<P: PT, C: Coll<P>>(
         }
         rep.rows += 1;
         let key = serde_json::to_string(&row["h"]).unwrap();
-        let Some((f, fx)) = pre.get(&key) else {
+        let Some((f, fx, dr0)) = pre.get(&key) else {
             rep.no_state_row += 1;
             continue;
         };
@@ -230,7 +236,11 @@ pub fn replay_rows<P: PT, C: Coll<P>>(
         rep.executed += 1;
         *rep.per_action.entry(row["e"]["a"].as_str().unwrap().to_string()).or_default() += 1;
         let st = observe::<P, C>(&c, ctx, o);
-        let mm = compare(&row, ctx, &st, C::IS_SET);
+        let dr = row.get("dr").and_then(|d| d.as_i64()).unwrap_or(*dr0);
+        if dr != 0 {
+            rep.drift_rows += 1;
+        }
+        let mm = compare(&row, ctx, &st, C::IS_SET, dr);
         if rep.samples.len() < 3 && rep.executed % 4999 == 2500 {
             rep.samples.push(json!({"h": row["h"], "e": row["e"], "r": st.ret, "t": st.tree, "x": st.acct}));
         }
@@ -248,7 +258,7 @@ pub fn report_json(rep: &Report, ptype: &str, coll: &str) -> Value {
     json!({
         "ptype": ptype, "coll": coll,
         "rows": rep.rows, "executed": rep.executed, "skipped_host": rep.skipped_host,
-        "skipped_unsupported": rep.skipped_unsupported, "pre_failed": rep.pre_failed, "no_state_row": rep.no_state_row,
+        "skipped_unsupported": rep.skipped_unsupported, "pre_failed": rep.pre_failed, "drift_rows": rep.drift_rows, "no_state_row": rep.no_state_row,
         "states": rep.states, "per_action": rep.per_action,
         "mismatch_count": rep.mismatch_count, "mismatches": rep.mismatches, "samples": rep.samples,
     })
